@@ -149,7 +149,7 @@ func TestP2Programs(t *testing.T) {
 	defer rec.Finish(t)
 	rec.Rule("random programs of 3-60 steps built by simulation: the generator keeps a live reference machine, inspects the actual operand stack and emits only operator applications whose preconditions hold (literals with boundary bias; arrays, strings, dictionaries; variables via def/load; stack operators; add/sub/mul/abs/and/or/not/eq/ne; get/put/getinterval/putinterval/copy/forall/length through aliases obtained with `k index`, variables or dup, including overlapping putinterval from an interval of the destination; begin/end/def/load/known/where/currentdict/maxlength/dict copy; definefont/findfont/defineresource/findresource; type; bind), optionally followed by one operator application that violates exactly one precondition (wrong type at one position, index one past either end, count too large or negative, one operand too few, missing mark, undefined key). Oracle as for tuples. Non-trivial: program uses a boundary operand, writes through an alias, or ends in a deliberate violation; distinct by program text.")
 	cfg := config(rec)
-	ev.SetupRapid(20000, 800000)
+	ev.SetupRapid(120000, 3000000)
 	rapid.Check(t, func(t *rapid.T) {
 		toks, feat, wantErr := psgen.Adaptive(t, cfg, ev.Total(40, 60))
 		res := ev.SafeRes(func() psdiff.Result { return runToks(toks, cfg) })
